@@ -63,6 +63,9 @@ func runC06(c *mon.Ctx) {
 					return u
 				}
 				return strings.Replace(cfgAud, "*", "anything", 1)
+			case 10, 11:
+				// near the configured value, or equal to another of the SP's configured values
+				return NearVariant(r, cfgAud, SPIss, ACS, SLO, IdPIss)
 			}
 			return ""
 		}
@@ -75,7 +78,7 @@ func runC06(c *mon.Ctx) {
 			var auds []string
 			matched := false
 			for j := r.IntN(5); j > 0; j-- {
-				kind := r.IntN(10)
+				kind := r.IntN(12)
 				if r.IntN(3) == 0 {
 					kind = 0
 				}
@@ -124,7 +127,7 @@ func runC06(c *mon.Ctx) {
 				p.Count = sim.S("2147483647")
 			}
 			for j := r.IntN(4); j > 0; j-- {
-				p.Audiences = append(p.Audiences, audOf(r.IntN(10)))
+				p.Audiences = append(p.Audiences, audOf(r.IntN(12)))
 			}
 			a0.Cond.Proxy = p
 		}
